@@ -27,8 +27,9 @@ def run_patch(patch_path, prop, tier="quick", keep=False, expect=None):
                 "tail": out[-1500:] if c.returncode not in (0, 1) else ""}
     finally:
         tag = "-" + hashlib.sha256(repo.encode()).hexdigest()[:8]
-        for d in ("kani-target" + tag, "replay-target" + tag, "replay-crate" + tag):
-            shutil.rmtree(os.path.join(BUILD, d), ignore_errors=True)
+        import glob
+        for d in glob.glob(os.path.join(BUILD, "*" + tag)) + glob.glob(os.path.join(BUILD, "*" + tag + "-*")):
+            shutil.rmtree(d, ignore_errors=True)
         if not keep: shutil.rmtree(tmp, ignore_errors=True)
 
 
